@@ -387,7 +387,7 @@ func (f *SnapFile) Write(p []byte) (int, error) {
 		off := f.pos
 		f.pos = end
 		f.mu.Unlock()
-		c.emit(mon.Event{Kind: mon.KSnapWrite, Inst: f.ID, Num: off, Cnt: uint64(n), Hash: mon.HashBytes(p[:n])})
+		c.emit(mon.Event{Kind: mon.KSnapWrite, Inst: f.ID, Num: off, Cnt: uint64(n), Hash: mon.HashBytes(p[:n]), Via: gid.Get()})
 	}
 	c.IoMu.RUnlock()
 	c.point("snap.write", true)
